@@ -261,7 +261,7 @@ def mutants(repo):
     return [
         Mutant('merge-keeps-unsafe-children-apart', lambda r: in_func(r, 'ComposedNode.ayns.on_merge_impl', "                if child is None:", "                if child is None or not value.ayns.safe:"), ['C15.R1']),
         Mutant('priority-test-looks-at-allow-new', lambda r: in_func(r, 'ConfigNode.ayns.has_priority_over', "            if self.ayns.priority == other.ayns.priority:", "            if self.ayns.priority == other.ayns.priority and self.ayns.allow_new:"), ['C15.R1']),
-        Mutant('explicit-flag-blocks-delete-inheritance', lambda r: in_func(r, 'ComposedNode._propagate_implicit_values', "if self._delete is not None and self._allow_new is not None and self._safe is not None:", "if self._delete is not None or self._allow_new is not None or self._safe is not None:"), ['C15.R1b']),
+        Mutant('explicit-flag-blocks-delete-inheritance', lambda r: in_func(r, 'ComposedNode._propagate_implicit_values', "if self._delete is not None and self._allow_new is not None and self._safe is not None and self._implicit_safe is not False:", "if self._delete is not None or self._allow_new is not None or self._safe is not None:"), ['C15.R1b']),
         Mutant('merge-imports-random', lambda r: in_module(r, 'composed', "from .node_path import NodePath\n", "from .node_path import NodePath\nimport random\n"), ['C15.R2']),
         Mutant('removed-set-iterated', lambda r: in_func(r, 'ComposedNode.ayns.on_merge_impl', "                if not self._children and", "                for _p in removed:\n                    pass\n                if not self._children and"), ['C15.R2']),
         Mutant('deletions-forward', lambda r: in_func(r, 'ComposedNode.ayns.filter_nodes', "for name in reversed(to_del):", "for name in to_del:"), ['C15.R3']),
